@@ -124,6 +124,36 @@ PROPS = {
             dict(test="TestC12Prop", kind="rapid", checks={Q: 1500, T: 60000}, shards=12),
         ],
     ),
+    "C11": dict(
+        pkg="c11", level="exploration", prebuild="go run ./cmd/genregistry",
+        technique="enumerated constructor x permission-set x path x value matrix plus property-based testing (rapid) with callback-spy oracle; HTTP PUT/GET/subscribe path against a live transport with the reference controller",
+        level_text=("Every characteristic constructor found at check time is combined with its own and 13 override permission sets, both update paths and typed/foreign values; spies on all three callback kinds and on the stored value, "
+                    "the JSON form and the connection getter decide: no write permission => remote write changes nothing and calls nothing; no read permission => nothing stored or revealed. Positive controls assert that the same "
+                    "operations take effect when the permission is present. The HTTP path (PUT value, PUT ev, GET, events) is exercised against a started transport by the independent controller."),
+        level_note="Trusted: the spies and hx's format table. Permission overrides are applied to the exported Perms field as an application would.",
+        rule=("matrix: constructors x 14 permission sets x {remote,local} x 3-4 (quick) / 12-13 (thorough) values; rapid: random constructor, random subset of {pr,pw,ev,hd,wr}, optional prior application value, typed or arbitrary JSON value. "
+              "Non-trivial: the permission under test is absent (no pr, or no pw on the remote path). Distinct by (constructor, perms, path, values)."),
+        assumptions=["a characteristic whose permissions are overridden to exclude read starts without a value"],
+        essential_classes=["missing:pw/remote", "missing:pr/remote", "missing:pr/local", "all-perms/remote"],
+        jobs=[
+            dict(test="TestC11Matrix", kind="plain", shards={Q: 4, T: 8}),
+            dict(test="TestC11Prop", kind="rapid", checks={Q: 1000, T: 40000}, shards=8),
+        ],
+    ),
+    "C14": dict(
+        pkg="c14", level="exploration", prebuild="go run ./cmd/genregistry",
+        technique="property-based testing (rapid) over generated accessory compositions with uniqueness / rebuild-stability / JSON well-formedness invariants; every accessory and service constructor enumerated",
+        level_text=("Generated compositions of 1..40 accessories (any accessory constructor, 0..6 extra services from any service constructor, hidden/primary/linked, explicit ids from a small range to provoke collisions or automatic ids) are built, "
+                    "added to a container in order and checked: ids unique and non-zero, AddAccessory errors consistent with membership, a second build from scratch yields identical ids, and the container's JSON parses into the HAP shape with ids equal to the objects'."),
+        level_note="Trusted: the JSON shape checker. Accessories are completed before they are added to a container (as the library's own transport does). The wire-level fetch of /accessories is covered by C09.",
+        rule=("rapid compositions; non-trivial: at least 2 accessories and at least 1 extra service. Distinct by composition. Plus one enumerated case per accessory constructor and per service constructor."),
+        assumptions=["an accessory is added to exactly one container, after all its services have been added"],
+        essential_classes=["ids:mixed", "ids:explicit", "ids:auto", "explicit-id-collision", "linked-services", "accessories>=20", "every-accessory-constructor", "every-service-constructor"],
+        jobs=[
+            dict(test="TestC14EveryConstructor", kind="plain"),
+            dict(test="TestC14Prop", kind="rapid", checks={Q: 300, T: 10000}, shards=16),
+        ],
+    ),
 }
 
 # reasons for properties not claimed yet (kept current while the framework is being built)
